@@ -60,6 +60,29 @@ def gen(tier, rng):
                     out.append(("SECEQ %s %s %s" % (ty, C.tb(a), C.tb(a)), "long-multibyte"))
                     out.append(("SECEQ %s %s %s" % (ty, C.tb(a), C.tb(a + "x")), "long-multibyte"))
                     out.append(("SECEQ %s %s %s" % (ty, C.tb(a + "x"), C.tb(a + "y")), "long-multibyte"))
+    # literals that are new in the source (gen/srclit.py): each new word as a secret, as affix, infix and case variant of one;
+    # each new integer (and its neighbours) as the byte length of secrets that differ only at their very end / very start
+    from gen import srclit as SL
+    for ti, ty in enumerate(TYPES):
+        for w in SL.words():
+            forms = list(dict.fromkeys([w, w.lower(), w.upper(), w + " ", " " + w, w + "\n", "x" + w, w + "x", w + w, "hunter2" + w, w + "hunter2", "hun" + w + "ter2", ""]))
+            for a in forms:
+                for b in forms:
+                    out.append(("SECEQ %s %s %s" % (ty, C.tb(a), C.tb(b)), "source-literal/word"))
+            for b in ("hunter2", "hunter2 ", "HUNTER2"):
+                out.append(("SECEQ %s %s %s" % (ty, C.tb("hunter2" + w), C.tb(b)), "source-literal/word"))
+                out.append(("SECEQ %s %s %s" % (ty, C.tb(b), C.tb(w + "hunter2")), "source-literal/word"))
+        for n in SL.sizes(limit=300000, lo=0):
+            for fill in ("a", "\u00e9", "\U0001F600"):
+                fl = len(fill.encode("utf-8"))
+                for pad in range(0, min(fl, n + 1)):
+                    a = "a" * pad + fill * ((n - pad) // fl)
+                    a += "a" * (n - len(a.encode("utf-8")))
+                    for b in (a, a + "x", a + "y", a[:-1], "x" + a, a[:-1] + "b" if a else "b", a + fill):
+                        out.append(("SECEQ %s %s %s" % (ty, C.tb(a), C.tb(b)), "source-literal/length"))
+                        out.append(("SECEQ %s %s %s" % (ty, C.tb(b), C.tb(a)), "source-literal/length"))
+                    out.append(("SECEQ %s %s %s" % (ty, C.tb(a + "x"), C.tb(a + "y")), "source-literal/length"))
+                    out.append(("SECEQ %s %s %s" % (ty, C.tb("x" + a), C.tb("y" + a)), "source-literal/length"))
     n = 500 if tier == "quick" else 50000
     for _ in range(n):
         a = "".join(rng.choice("abé\x00 ") for _ in range(rng.randint(0, 6)))
